@@ -210,6 +210,8 @@ def run(rep):
         params = 'seps=%s,spaces=%s,skip_empty=%s,max_item_num=%s,plain=%s' % (bytes(e['seps']).decode(), bytes(e['spaces']).decode(), e['skip'], e['maxitems'], e['plain'])
         rep.violation('ParserText.parse_string_array|%s|%s' % (tup[1], params),
                       'the text list engine (called while a real class parses) differs from its as-coded model on %r (%s)' % (bytes(e['text'][:80]), params), e)
+    from . import c18_engine
+    c18_engine.run_composer(rep, thorough)
     rep.sample(events[0])
     rep.sample(events[len(events) // 2])
     slim = [{k: e[k] for k in ('out', 'canon_out', 'compose_in_set', 'same')} for e in events]
